@@ -61,6 +61,7 @@ def check_history(run):
     index_thread = {}
     workers_seen = set()
     max_n = 0
+    stats_spawn_failures = []
     sigs = []
     for b, n in enumerate(hist):
         if b not in calls:
@@ -71,6 +72,11 @@ def check_history(run):
             break
         c, r = calls[b], rets[b]
         caller = c.tid          # the thread that issued this broadcast
+        if str(b) == cfg.get("spawnfail") and r.c == 1:
+            # thread creation failed while this broadcast grew the pool and it left by a panic: the driver's online monitor has
+            # checked that no call of it was running or started afterwards; it did not take place as far as the pool's size goes
+            stats_spawn_failures.append(b)
+            continue
         for idx in range(n + 1):
             bl, el = begins.get((b, idx), []), ends.get((b, idx), [])
             if len(bl) != 1 or len(el) != 1:
@@ -135,6 +141,6 @@ def check_history(run):
             out.append(V("C06", "worker_creation", "%d distinct workers ran tasks, the largest request was %d" % (len(workers_seen), max(hist or [0]))))
         if info["workers"] != len(workers_seen):
             out.append(V("C06", "worker_creation", "%d worker threads ran tasks, %d distinct ones in the log" % (info["workers"], len(workers_seen))))
-    stats = {"broadcasts": len(rets), "task_calls": sum(len(v) for v in begins.values()), "workers": len(workers_seen),
+    stats = {"spawn_failures_injected": len(stats_spawn_failures), "broadcasts": len(rets), "task_calls": sum(len(v) for v in begins.values()), "workers": len(workers_seen),
              "panicking_calls": sum(1 for v in ends.values() for e in v if e.c == 1), "unpublished_slots": unpublished}
     return out, stats, sigs
